@@ -28,9 +28,10 @@ func (b *zzBodyRd) Close() error { return nil }
 
 // VerifMountedAdmission: the middleware that is actually mounted on the proxy routes
 // (handlers.SecurityAdapters.CreateChainMiddleware over the real rate-limit and size validators):
-//   O1 requests from one client IP over different source ports share one bucket;
-//   O2 a refusal for rate is answered 429;
-//   O3 the next handler can never read more than max_body_size, also for a chunked body.
+//
+//	O1 requests from one client IP over different source ports share one bucket;
+//	O2 a refusal for rate is answered 429;
+//	O3 the next handler can never read more than max_body_size, also for a chunked body.
 func VerifMountedAdmission() {
 	burst, max := gosym.Param("BURST"), int64(gosym.Param("MAX"))
 	rl := security.NewRateLimitValidator(config.ServerRateLimits{PerIPRequestsPerMinute: 60, BurstSize: burst}, nil, zzLog{})
